@@ -12,7 +12,7 @@ sendQueued is pending (timer active / producer paused / not connected).
 Receivers (carbon.protocols.MetricReceiver.connectionMade / connectionLost): a connection made
 while paused is paused and registered for the resume event.
 """
-from pyvc.runner import Unit, Property, Syntactic
+from pyvc.runner import Unit, Property, Syntactic, Bounded
 from . import cache_units as CU
 from . import client_units as CL
 from . import c09_receivers as RCV
@@ -63,6 +63,14 @@ def build():
     findings_witness={'D8': witness('D8'), 'D7': witness('D7')},
     syntactic=[Syntactic('C09/wiring/full_pauses_and_space_resumes', wiring,
                          'service.py registers pause on cacheFull and resume on cacheSpaceAvailable in equal numbers; events.py default handlers keep the two state flags')],
+    bounded=[Bounded('C09/native/relay_quiescence_cross_check', 'replay/relay_native.py',
+                     ['--len', '5', '--random', '50', '--only', 'relay-paused-at-quiescence,D8'],
+                     ['--len', '6', '--random', '300', '--thorough', '--only', 'relay-paused-at-quiescence,D8'],
+                     "relay side: every enabled sequence of <= 5 (quick) / 6 (thorough) events over {arrival, self-metric, connection made / lost / failed, transport paused / resumed, timer round} plus seeded random sequences up to 14 events on the real carbon.client classes with a task.Clock reactor, all timers fired at the end: no run ends with full signalled, no space signal since, and the queue below its low watermark (the known finding D8 excepted)",
+                     "the reduction of the liveness statement to the handler-exit invariant assumes the pending wake-up runs; this executes the whole chain (timer -> sendQueued -> space callback) on CPython/Twisted for every short history"),
+             Bounded('C09/native/cache_flag_cross_check', 'replay/cache_native.py', ['--sweep', '3', 'flag_implies_above_low'], ['--sweep', '4', 'flag_implies_above_low'],
+                     "cache side, single thread: every history of <= 3 (quick) / 4 (thorough) stores / drains over 2 metrics x 2 timestamps for MAX_CACHE_SIZE in {1,2,3,inf}, flow control on/off and all seven strategies: cacheTooFull implies size >= the low watermark after every operation",
+                     "sequential cross-check only (the interleavings are covered by the rely/guarantee obligations)")],
     trusted_base=['A-ENGINE', 'A-SMT', 'A-GIL', 'A-THREADS', 'A-TWISTED-DEFER'],
     assumptions=[
       "liveness is reduced to the safety invariant 'an outstanding pause has a pending wake-up' holding at every handler exit / atomic step; that the pending wake-up eventually runs (timer fires, transport resumes, connection is made, writer keeps draining) is assumed",
